@@ -15,11 +15,28 @@ pub fn encode_message_batch(batch: Vec<Bytes>) -> Bytes {
 }
 
 pub fn decode_message_batch(mut bytes: Bytes) -> Vec<Bytes> {
+    const LEN_SIZE: usize = std::mem::size_of::<u64>();
+
+    if bytes.remaining() < LEN_SIZE {
+        return Vec::new();
+    }
+
     let num_of_messages = bytes.get_u64();
-    let mut messages = Vec::with_capacity(num_of_messages as usize);
+    // Every message occupies at least its length marker, so never reserve more than that.
+    let capacity = (bytes.remaining() / LEN_SIZE).min(num_of_messages as usize);
+    let mut messages = Vec::with_capacity(capacity);
 
     for _ in 0..num_of_messages {
+        if bytes.remaining() < LEN_SIZE {
+            break;
+        }
+
         let message_len = bytes.get_u64();
+
+        if message_len > bytes.remaining() as u64 {
+            break;
+        }
+
         let message_bytes = bytes.split_to(message_len as usize);
         messages.push(message_bytes);
     }
